@@ -1038,6 +1038,10 @@ class Interp(object):
                 return self.call(Closure(g, g.node, None, g.module, o, cls), [], {})
             if name in cls.methods:
                 m = cls.methods[name]
+                if m.is_static:
+                    return Closure(m, m.node, None, m.module, None, cls)
+                if m.is_classmethod:
+                    return Closure(m, m.node, None, m.module, ClassRef(cls), cls)
                 return Closure(m, m.node, None, m.module, o, cls)
             if self.attr_hook is not None:
                 r = self.attr_hook(self, o, name)
@@ -1064,7 +1068,7 @@ class Interp(object):
         if isinstance(o, ClassRef):
             if name in o.info.methods:
                 m = o.info.methods[name]
-                return Closure(m, m.node, None, m.module, None, o.info)
+                return Closure(m, m.node, None, m.module, ClassRef(o.info) if m.is_classmethod else None, o.info)
             if name in o.info.class_attrs:
                 return self.eval(o.info.class_attrs[name], Env(module=o.info.module))
             if name == '__name__':
@@ -1149,6 +1153,8 @@ class Interp(object):
             return f(x if isinstance(x, (list, tuple)) else to_rat(x))
         if isinstance(f, Obj) and '__call__' in f.cls.methods:
             return self.call_method(f, '__call__', *args, **kwargs)
+        if isinstance(f, bm._ItemGetter):
+            return self.subscript(args[0], f.k)
         raise Undecidable('call of %r' % (f,))
 
     def instantiate(self, info, args, kwargs):
